@@ -168,3 +168,23 @@ func specNib(e *mulTable64Entry, w T) T {
 //@   requires disjoint(in, out)
 //@   modifies out[:]
 //@   ensures forall(k, 0, mathint(len(in))/2, specWord(out, k) == old(specWord(out, k)) ^ specGfmul(c, old(specWord(in, k))))
+
+// mulSlice / mulAndAddSlice reinterpret []T as []byte in place through unsafe slice headers
+// (castTToByteSlice). On little-endian amd64 element k of the []T view is bytes 2k, 2k+1 of the
+// byte view, so these contracts are the []T reading of MulByteSliceLE / MulAndAddByteSliceLE.
+// They are ASSUMED (A-unsafe): the cast itself is outside the verified subset.
+//@ func mulSlice
+//@   props C11 C07
+//@   assume-contract
+//@   panics len(in) != len(out)
+//@   requires sameSlice(in, out) || disjoint(in, out)
+//@   modifies out[:]
+//@   ensures forall(k, 0, len(in), out[k] == specGfmul(c, old(in[k])))
+
+//@ func mulAndAddSlice
+//@   props C11 C07
+//@   assume-contract
+//@   panics len(in) != len(out)
+//@   requires disjoint(in, out)
+//@   modifies out[:]
+//@   ensures forall(k, 0, len(in), out[k] == old(out[k]) ^ specGfmul(c, old(in[k])))
